@@ -16,6 +16,8 @@ theorem verdict : (classify Generated.factsC04).Sound (Holds (cfgOf Generated.fa
 #print axioms Hv.Storage.alloc_bounded
 #print axioms Hv.Storage.readNextBlock_torn
 #print axioms Hv.Storage.load_is_prefix_replay
+#print axioms Hv.Storage.oversized_csize_hides_rest
+#print axioms Hv.Storage.load_after_oversized_csize
 #print axioms holds_of_good
 #print axioms holds_partial
 #print axioms forgedSize_allocates
